@@ -28,7 +28,10 @@ def tasks(tier):
         for D in ([2] if tier == 'quick' else [1, 2, 3]):
             cfg = opt_cfg(spl, D)
             base = '%s,DIM=%d' % (spl.replace('SplineND', ''), D)
-            T.append(Task('SplineOptimizer', 'calculateIntegralCost', None, cfg, label=base, setup=optimizer_default_maps, options=quad_options()))
+            if not (tier == 'quick' and spl == SPLINES[1]):       # the quintic quadrature is C07's quick instance
+                T.append(Task('SplineOptimizer', 'calculateIntegralCost', None, cfg, label=base, setup=optimizer_default_maps, options=quad_options()))
+            if tier == 'quick' and spl != SPLINES[0]:
+                continue      # quick tier: evaluate for the cubic instance here, for the quintic instance in C07's quick tier; all orders in the thorough tier
             T.append(Task('SplineOptimizer', 'evaluate', 7, cfg, label=base + ',own workspace', setup=optimizer_user_maps, options=eval_options(),
                           pins={'p_ws_null': False}))
     if True:
